@@ -9,13 +9,21 @@
     the [usize] arithmetic that can overflow ([dbg] = overflow checks and debug assertions
     enabled: panic; otherwise wrap-around). A panic is the outcome [Rejected].
 
+    [remove] resolves its bounds with [checked_add(1).expect(..)] since the repair of H23
+    (commit dcfd7cd): the overflow panics in every build. The normalisation as it was before
+    is kept under the names [.._h23] to state what was wrong.
+
     Executable definitions only; proofs are in Proofs/ReadBufEditProofs.v. *)
 From A10 Require Import Base.Word Base.Run.
 
 (** * [usize] arithmetic (64 bit) *)
 Definition usize_max : N := two64 - 1.
 
-(** [x + 1] *)
+(** [x.checked_add(1)] *)
+Definition checked_add1 (x : N) : option N :=
+  if x + 1 <? two64 then Some (x + 1) else None.
+
+(** [x + 1] (unchecked: panics with overflow checks, wraps without) *)
 Definition uadd1 (dbg : bool) (x : N) : option N :=
   if x + 1 <? two64 then Some (x + 1) else if dbg then None else Some 0.
 
@@ -68,18 +76,33 @@ Inductive outcome :=
   | Refused        (* returned [Err(())] *)
   | Rejected.      (* panicked *)
 
-(** [remove]: normalisation of the two [Bound]s. *)
-Definition norm_start (dbg : bool) (b : bound) : option N :=
+(** [remove]: normalisation of the two [Bound]s; [None] = the [expect] panic. *)
+Definition norm_start (b : bound) : option N :=
   match b with
   | Unb => Some 0
   | Incl s => Some s
-  | Excl s => uadd1 dbg s          (* [start_idx + 1] *)
+  | Excl s => checked_add1 s       (* [start_idx.checked_add(1).expect(..)] *)
   end.
 
-Definition norm_end (dbg : bool) (original_len : N) (b : bound) : option N :=
+Definition norm_end (original_len : N) (b : bound) : option N :=
   match b with
   | Unb => Some original_len
-  | Incl e => uadd1 dbg e          (* [end_idx + 1] *)
+  | Incl e => checked_add1 e       (* [end_idx.checked_add(1).expect(..)] *)
+  | Excl e => Some e
+  end.
+
+(** The code before the repair (H23): [start_idx + 1], [end_idx + 1]. *)
+Definition norm_start_h23 (dbg : bool) (b : bound) : option N :=
+  match b with
+  | Unb => Some 0
+  | Incl s => Some s
+  | Excl s => uadd1 dbg s
+  end.
+
+Definition norm_end_h23 (dbg : bool) (original_len : N) (b : bound) : option N :=
+  match b with
+  | Unb => Some original_len
+  | Incl e => uadd1 dbg e
   | Excl e => Some e
   end.
 
@@ -108,7 +131,7 @@ Definition step_owned (dbg : bool) (cap : N) (m : list N) (b : rbuf) (e : edit)
   | Clear => (m, change_size b 0, Done 0)
   | Remove rs re =>
       let original_len := rb_len b in
-      match norm_start dbg rs, norm_end dbg original_len re with
+      match norm_start rs, norm_end original_len re with
       | Some start, Some end_ =>
           if end_ <? start then (m, b, Rejected)
           else if original_len <? end_ then (m, b, Rejected)
@@ -148,7 +171,7 @@ Definition step_unowned (dbg : bool) (cap : N) (e : edit) : outcome :=
   match e with
   | Truncate _ | Clear => Done 0
   | Remove rs re =>
-      match norm_start dbg rs, norm_end dbg 0 re with
+      match norm_start rs, norm_end 0 re with
       | Some start, Some end_ =>
           if negb (start =? 0) && negb (end_ =? 0) then Rejected else Done 0
       | _, _ => Rejected
